@@ -140,4 +140,31 @@ PROPS = {
         assumptions=COMMON_ASSUME,
         partial=[],
     ),
+    "C02": dict(
+        level="proof",
+        trusted_base=[KERNEL, CORR,
+                      "modelled, not verified: Array2<GF2> as List (List Bool) (xor / and; division by a non-zero element is the identity), ndarray slicing / "
+                      "dot / concatenate by their index laws; the Gauss-Jordan loops of linalg.rs are mirrored loop for loop including the partial-row updates"],
+        rule=("3000 (40000 thorough) matrices with 1 <= r <= n, r <= 12 (60), n <= 24 (90) from 8 families (staircase, near-staircase with one entry toggled in "
+              "the parity part, dense, square dense, singular tail: zero / duplicate / dependent column, pivots at the far right, rank-deficient rows, sparse "
+              "with zero and duplicate columns; every 20th matrix has a single row); ALL messages for k <= 3, else 3 random triples (m1, m2, m1 xor m2); compared "
+              "exactly: Ok/Err/panic, encoder kind parsed from the Debug text (Staircase / DenseGenerator), every codeword; predicate on the implementation output: "
+              "prefix = message, H c = 0, linearity on the triples, Err <=> independent GF(2) rank of the tail < r; non-trivial = k >= 1 or the build fails; "
+              "distinct = distinct canonical input"),
+        assumptions=COMMON_ASSUME,
+        partial=[],
+    ),
+    "C09": dict(
+        level="proof",
+        trusted_base=[KERNEL, CORR,
+                      "modelled, not verified: Array2<GF2> as List (List Bool); row_echelon_form mirrored loop for loop (partial-row updates, fuel = number of "
+                      "columns); the column-placement loop with both assertions as explicit panic branches; SparseMatrix as in C17"],
+        rule=("the repaired-defect corpus (D3: pivots after all free columns; square identity) plus 4000 (60000 thorough) matrices with 1 <= r <= n, r <= 10 (40), "
+              "n <= 20 (70) from 8 families (full rank, rank deficient, square, zero / duplicate columns, pivots at the far right, staircase, near-staircase, "
+              "singular tail); compared exactly: Ok(matrix with both adjacency lists in order) / NotFullRank / panic and whether Encoder::from_h accepts the result; "
+              "predicate on the implementation output: Err <=> independent GF(2) rank < r, multiset of columns preserved, rank of the last r columns = r, encoder "
+              "accepts; non-trivial = at least 2 rows; distinct = distinct canonical input"),
+        assumptions=COMMON_ASSUME,
+        partial=[],
+    ),
 }
